@@ -125,6 +125,21 @@ func c07EndToEnd(c *vk.Ctx) {
 				if len(sn.Probes) != 1 || len(sn.Auth) != 0 {
 					c.Violation("C07/e2e/refused-copy-not-treated-as-probe", map[string]any{"seq": sn.Seq})
 				}
+				if !rs.rig.opts.Raw {
+					// server-side view: one handshake deadline (accept + timeout), never restarted -
+					// exactly what an invalid probe gets
+					var dls []time.Time
+					for _, e := range sn.ConnEvents {
+						if (e.Kind == "setReadDeadline" || e.Kind == "setDeadline") && !e.DL.IsZero() {
+							dls = append(dls, e.DL)
+						}
+					}
+					if len(dls) != 1 || dls[0].Sub(sn.Accepted) < timeout || dls[0].Sub(sn.Accepted) > timeout+3*time.Second {
+						c.Violation("C07/e2e/refused-copy-deadline-differs-from-an-invalid-probe's", map[string]any{"deadlines_set": len(dls), "timeout": timeout.String(), "seq": sn.Seq})
+					} else {
+						c.Count("e2e_refused_copies_with_probe_deadline", 1)
+					}
+				}
 				if rs.closed < timeout {
 					c.Violation("C07/e2e/refused-copy-closed-before-timeout", map[string]any{"closed_after": rs.closed.String(), "timeout": timeout.String()})
 				}
